@@ -591,3 +591,120 @@ def rewrite_equal(t, pairs):
         return t
     m = {b.id: a for a, b in pairs}
     return tm.rebuild(t, lambda z: m.get(z.id))
+
+
+# ------------------------------------------------------------------ EXTNAMES
+_EXT_CACHE = {}
+PKG_NAME = "mir_eval"
+
+
+def _resolve_external(dotted):
+    """(ok, detail): does the dotted name `pkg.a.b` denote something in the installed third-party / standard library?
+    Only the *library* is imported (never mir_eval); the lookup is the one Python itself performs when the expression
+    is evaluated: attribute by attribute, with `import pkg.a` as the fallback for sub-modules."""
+    import importlib
+
+    if dotted in _EXT_CACHE:
+        return _EXT_CACHE[dotted]
+    parts = dotted.split(".")
+    try:
+        obj = importlib.import_module(parts[0])
+    except Exception as e:  # the root package itself is absent: nothing can be said (not this rule's business)
+        _EXT_CACHE[dotted] = (None, "package %s is not importable here (%s)" % (parts[0], type(e).__name__))
+        return _EXT_CACHE[dotted]
+    res = (True, "")
+    for i in range(1, len(parts)):
+        try:
+            obj = getattr(obj, parts[i])
+        except AttributeError:
+            try:
+                obj = importlib.import_module(".".join(parts[: i + 1]))
+            except Exception:
+                res = (False, "%s has no attribute %r (installed %s %s)" % (".".join(parts[:i]), parts[i], parts[0], getattr(importlib.import_module(parts[0]), "__version__", "?")))
+                break
+        except Exception:
+            break  # a lazy attribute that fails for another reason: undecided, treated as resolved
+    _EXT_CACHE[dotted] = res
+    return res
+
+
+def rule_extnames(ctx, rule, files):
+    """Every dotted name rooted at an imported external module (`np.linalg.LinAlgError`, `scipy.signal.fftconvolve`,
+    `collections.OrderedDict`) resolves in the installed library.  A name that does not resolve raises AttributeError
+    the moment the expression is evaluated - inside an `except <name>:` clause that means the handled condition
+    escapes as an unrelated exception exactly on the inputs the handler was written for."""
+    n = 0
+    vers = {}
+    for mname in sorted(ctx.program.modules):
+        mod = ctx.program.modules[mname]
+        if files is not None and mod.path.split("mir_eval/")[-1] not in files:
+            continue
+        ext = {}
+        for alias, imp in mod.imports.items():
+            if imp[0] == "mod" and not imp[1].startswith(PKG_NAME):
+                ext[alias] = imp[1]
+            elif imp[0] == "name" and not imp[1].startswith(PKG_NAME) and imp[1] not in ("__future__",):
+                ext[alias] = imp[1] + "." + imp[2]
+        # names re-bound inside a function (parameter or assignment) are not the module
+        parents = {}
+        for node in ast.walk(mod.tree):
+            for ch in ast.iter_child_nodes(node):
+                parents[ch] = node
+        shadow = {}
+        for fn in ast.walk(mod.tree):
+            if isinstance(fn, (ast.FunctionDef, ast.Lambda)):
+                names = {a.arg for a in fn.args.args + fn.args.kwonlyargs + getattr(fn.args, "posonlyargs", [])}
+                if fn.args.vararg:
+                    names.add(fn.args.vararg.arg)
+                if fn.args.kwarg:
+                    names.add(fn.args.kwarg.arg)
+                for x in ast.walk(fn):
+                    if isinstance(x, ast.Name) and isinstance(x.ctx, ast.Store):
+                        names.add(x.id)
+                shadow[fn] = names
+        seen = set()
+        for node in ast.walk(mod.tree):
+            if not isinstance(node, ast.Attribute) or isinstance(parents.get(node), ast.Attribute):
+                continue  # only maximal chains
+            chain = []
+            x = node
+            while isinstance(x, ast.Attribute):
+                chain.append(x.attr)
+                x = x.value
+            if not isinstance(x, ast.Name) or x.id not in ext or not isinstance(node.ctx, ast.Load):
+                continue
+            p = node
+            shadowed = False
+            while p in parents:
+                p = parents[p]
+                if p in shadow and x.id in shadow[p]:
+                    shadowed = True
+            if shadowed:
+                continue
+            chain.reverse()
+            # the last component may be a method of an object (np.random.RandomState(0).rand): resolve the longest
+            # prefix that is reached through modules / classes / functions only - the lookup stops at the first call,
+            # which the chain cannot contain (a Call node ends an Attribute chain), so the whole chain is a pure name
+            dotted = ext[x.id] + "." + ".".join(chain)
+            in_handler = any(isinstance(parents.get(q), ast.ExceptHandler) and parents[q].type is q for q in _up(node, parents))
+            encl = [q.name for q in _up(node, parents) if isinstance(q, ast.FunctionDef)]
+            where = "%s.%s" % (mname, ".".join(reversed(encl))) if encl else mname
+            key = (where, dotted, in_handler)
+            if key in seen:
+                continue
+            seen.add(key)
+            ok, why = _resolve_external(dotted)
+            if ok is None:
+                continue
+            n += 1
+            root = dotted.split(".")[0]
+            f = "mir_eval/%s.py:%d" % (mname, node.lineno)
+            yield ob(rule, f, "%s:%s%s" % (where, dotted, "@except" if in_handler else ""), ok, ("%s resolves in the installed library" % dotted) if ok else ("%s - evaluating %s raises AttributeError%s" % (why, ast.unparse(node), ": the exception this handler was written for escapes as an unrelated AttributeError" if in_handler else "")), node=node)
+    need(n >= 5, rule, "only %d external names found" % n)
+
+
+def _up(node, parents):
+    out = [node]
+    while out[-1] in parents:
+        out.append(parents[out[-1]])
+    return out
